@@ -7,6 +7,8 @@ OUT=/verif/seeded/$ID; mkdir -p $OUT
 cd $WT || exit 2
 cp SEED/patch.diff SEED/seed_demo.rs SEED/notes.md $OUT/ 2>/dev/null
 git checkout -q -- . 2>/dev/null
+# demo harness (e.g. an [[example]] stanza for the byods crate, which sets autoexamples = false): not part of the seeded change
+for h in SEED/demo_*.diff; do [ -f "$h" ] && cp "$h" $OUT/ && git apply "$h"; done
 if [ -f byods/ascent-byods-rels/examples/seed_demo.rs ]; then PKG=ascent-byods-rels; else PKG=ascent; fi
 LOG=$OUT/confirm.log; : > $LOG
 echo "== demo on ORIGINAL" >> $LOG
@@ -23,5 +25,6 @@ echo "== demo on CHANGED" >> $LOG
 cargo run --offline -j 8 --example seed_demo -p $PKG >> $LOG 2>&1; RC_CHG=$?
 echo "rc=$RC_CHG" >> $LOG
 git apply -R $OUT/patch.diff
+for h in SEED/demo_*.diff; do [ -f "$h" ] && git apply -R "$h"; done
 PASSED=$(grep "^test result" $LOG | sed -E 's/.* ([0-9]+) passed.*/\1/' | paste -sd+ | bc)
 echo "SUMMARY id=$ID build_rc=$RC_BUILD tests_failed_lines=$TESTS_FAILED tests_passed=$PASSED demo_orig_rc=$RC_ORIG demo_changed_rc=$RC_CHG pkg=$PKG" | tee -a $LOG
